@@ -760,7 +760,19 @@ func c13Parse(r *core.Run) {
 	n := 0
 	for _, fn := range p.FuncsIn("internal/llm") {
 		rt := resultTypes(fn)
-		if len(rt) != 2 || !core.IsNamed(rt[0], modelsPath(p), "LLMResult") || !isErrorType(rt[1]) || len(fn.Params) != 1 || fn.Params[0].Type().String() != "string" {
+		if len(rt) != 2 || !core.IsNamed(rt[0], modelsPath(p), "LLMResult") || !isErrorType(rt[1]) {
+			continue
+		}
+		// the function that turns the answer text into an LLMResult: it decodes JSON into one (wherever that code lives)
+		decodes := false
+		core.InstrsOf(fn, func(in ssa.Instruction) {
+			if c := core.CallOf(in); c != nil && (core.CalleeName(c) == "encoding/json.Unmarshal" || core.CalleeName(c) == "(*encoding/json.Decoder).Decode") && len(c.Args) == 2 {
+				if core.IsNamed(core.Deref(core.Unwrap(c.Args[1]).Type()), modelsPath(p), "LLMResult") {
+					decodes = true
+				}
+			}
+		})
+		if !decodes {
 			continue
 		}
 		fnm := core.FuncName(fn)
@@ -795,7 +807,7 @@ func c13Parse(r *core.Run) {
 			r.Check(ok2 && n2 > 0, "C13.PARSE", fnm+"#whole-document-decode", ret.Pos(), "the answer is returned only after json.Unmarshal of the whole text into this value succeeded", "the provider's answer is returned without a successful json.Unmarshal of the whole text ("+core.FmtPath(path)+"): a streaming decode accepts a passing object followed by arbitrary trailing data")
 		}
 	}
-	r.Floor("C13.PARSE", "success returns of the answer parser (string → (LLMResult, error))", n, 1)
+	r.Floor("C13.PARSE", "success returns of the answer parser (decodes the text into an LLMResult)", n, 1)
 	// no streaming decoder anywhere on the audit path's answer handling
 	for _, fn := range p.FuncsIn("internal/llm") {
 		core.InstrsOf(fn, func(in ssa.Instruction) {
